@@ -124,6 +124,8 @@ type scopeRun struct {
 	histUps   map[string]map[string]bool // name|tags -> allowed upper-bound tokens
 	histViol  string
 	sanViol   string
+	indepViol string
+	keyViol   string
 }
 
 type scopeHow struct {
@@ -398,6 +400,56 @@ func (sr *scopeRun) checkPair(nt, pair string) {
 }
 
 func (sr *scopeRun) checkSnap(snap tally.Snapshot) {
+	// independence: the harness overwrites every earlier snapshot (tag values "MUTATED", timer values 12345ns,
+	// histogram counts -1); none of that may be visible in a later snapshot
+	if sr.indepViol == "" {
+		for _, cs := range snap.Counters() {
+			for _, v := range cs.Tags() {
+				if v == "MUTATED" {
+					sr.indepViol = fmt.Sprintf("counter %s: a tag value written into an EARLIER snapshot is visible in a later one", cs.Name())
+				}
+			}
+		}
+		for _, tsn := range snap.Timers() {
+			for _, v := range tsn.Values() {
+				if v == 12345 {
+					sr.indepViol = fmt.Sprintf("timer %s: a value written into an EARLIER snapshot (12345ns) is visible in a later one: %v", tsn.Name(), tsn.Values())
+				}
+			}
+		}
+		for _, hs := range snap.Histograms() {
+			for _, n := range hs.Values() {
+				if n == -1 {
+					sr.indepViol = fmt.Sprintf("histogram %s: a count written into an EARLIER snapshot (-1) is visible in a later one", hs.Name())
+				}
+			}
+			for _, n := range hs.Durations() {
+				if n == -1 {
+					sr.indepViol = fmt.Sprintf("histogram %s: a count written into an EARLIER snapshot (-1) is visible in a later one", hs.Name())
+				}
+			}
+		}
+	}
+	// "keyed by its full name and tags": the snapshot's map key is the public key function of (name, tags)
+	if sr.keyViol == "" {
+		chk := func(kind, k, name string, tags map[string]string) {
+			if want := tally.KeyForPrefixedStringMap(name, tags); k != want && sr.keyViol == "" {
+				sr.keyViol = fmt.Sprintf("%s %q with tags %v is stored under snapshot key %q; KeyForPrefixedStringMap(name, tags) is %q", kind, name, tags, k, want)
+			}
+		}
+		for k, v := range snap.Counters() {
+			chk("counter", k, v.Name(), v.Tags())
+		}
+		for k, v := range snap.Gauges() {
+			chk("gauge", k, v.Name(), v.Tags())
+		}
+		for k, v := range snap.Timers() {
+			chk("timer", k, v.Name(), v.Tags())
+		}
+		for k, v := range snap.Histograms() {
+			chk("histogram", k, v.Name(), v.Tags())
+		}
+	}
 	for _, h := range snap.Histograms() {
 		nt := hxs(h.Name()) + "|" + mapHex(h.Tags())
 		allowed := sr.histUps[nt]
@@ -648,6 +700,45 @@ func runScopeProgram(c *Ctx, r *Rng, mode string) {
 			if strings.ContainsAny(name, "+,=\\\xff") {
 				nontrivial = true
 			}
+		case w < 32 && (mode == "c04" || mode == "c05") && r.Chance(12): // two tag sets a careless key writer confuses
+			p := pick()
+			k1, v1, k2, v2 := string(rune('a'+r.Intn(3))), genScopeStr(r, false), string(rune('d'+r.Intn(3))), genScopeStr(r, false)
+			var ma, mb map[string]string
+			switch r.Intn(4) {
+			case 0: // value swallowing the next pair
+				ma, mb = map[string]string{k1: v1 + "," + k2 + "=" + v2}, map[string]string{k1: v1, k2: v2}
+			case 1: // escape byte at the end of a value / key
+				ma, mb = map[string]string{k1: "\\", k2 + "\\": v2}, map[string]string{k1: "," + k2 + "=" + v2}
+			case 2: // escaped delimiter vs escape byte followed by a delimiter
+				ma, mb = map[string]string{k1: v1 + "\\,x"}, map[string]string{k1: v1 + "\\", "x": ""}
+			default: // key containing the pair separator
+				ma, mb = map[string]string{k1 + "=" + v1: v2}, map[string]string{k1: v1 + "=" + v2}
+			}
+			for _, m := range []map[string]string{ma, mb} {
+				clean := true
+				seen := map[string]bool{}
+				for k := range m {
+					if seen[sr.san.Key(k)] {
+						clean = false
+					}
+					seen[sr.san.Key(k)] = true
+				}
+				if !clean {
+					continue
+				}
+				tok := mapHex(m)
+				sh := sr.shardFor(p, nil, m)
+				s2 := sr.scopes[p].Tagged(m)
+				id := sr.idOf(s2)
+				sr.say(fmt.Sprintf("tag %d %s %d => %s %s", p, tok, sh, id, sr.events()), "tag-collision-candidate")
+				if i, err := strconv.Atoi(id); err == nil {
+					if _, ok := sr.how[i]; !ok && i != p {
+						sr.how[i] = scopeHow{parent: p, tags: copyTags(m)}
+					}
+				}
+			}
+			nontrivial = true
+			c.Cov.Hit("program.collision-candidates")
 		case w < 32: // tagged
 			p := pick()
 			m := sr.genTags(3)
@@ -955,6 +1046,14 @@ func runScopeProgram(c *Ctx, r *Rng, mode string) {
 				break
 			}
 		}
+	}
+	if sr.keyViol != "" {
+		c.Cov.Fail(Failure{Kind: "violated", Clause: "snapshot-keyed-by-name-and-tags", Signature: sr.sigBase + "snapshot-key",
+			Line: strings.Join(sr.lines, " ; "), Reply: sr.keyViol, Detail: strings.Join(sr.lines, "\n")})
+	}
+	if sr.indepViol != "" {
+		c.Cov.Fail(Failure{Kind: "violated", Clause: "snapshot-independent", Signature: sr.sigBase + "snapshot-aliases-scope",
+			Line: strings.Join(sr.lines, " ; "), Reply: sr.indepViol, Detail: strings.Join(sr.lines, "\n")})
 	}
 	if sr.sanViol != "" {
 		c.Cov.Fail(Failure{Kind: "violated", Clause: "reported-strings-sanitized", Signature: sr.sigBase + "unsanitized-string-reported",
